@@ -742,4 +742,34 @@ theorem checkConnect_cases (cfg : Cfg) (a : A) (u : Nat) (m : AMod) (h : Hdr) (e
             rfl
           case hE2 => exact (errExt_chk ["C03", "C06", "C07"] _ _ "C06" _ (by simp)).chk _ "C06" _ (by simp)
 
+
+/-- the shape of `segment` for a CONNECT from a connection that is not connected yet: either no table update (refused,
+    or not observable), or the update with the observed id followed by the acknowledgement check -/
+theorem segment_connect_cases (cfg : Cfg) (a : A) (rd : Read) (evs : List Ev) (m : AMod) (hget : a.get rd.uid = some m)
+    (hal : m.alive = true) (hb : brokenRd cfg rd = false)
+    (hc : (rd.h.mtype == cfg.mtConnect || rd.h.mtype == cfg.mtConnectV2) = true) (hcn : m.connected = false) :
+    ∃ Y, ErrExt ["C03", "C06", "C07"] (afterBuf cfg a rd) Y ∧
+      (((ackSends evs = [] ∨ (reqOf cfg m rd.h (afterBuf cfg a rd).buf).name = none) ∧
+        (ackSends evs = [] → ∃ W, CoreExt ["C06", "C07", "C14"] Y W ∧ segment cfg a rd evs = applyDepartures W evs)) ∨
+       (∃ nm, (reqOf cfg m rd.h (afterBuf cfg a rd).buf).name = some nm ∧ ackSends evs ≠ [] ∧
+          segment cfg a rd evs =
+            applyDepartures (checkInfos (checkDepartures cfg (checkAcks cfg
+              (Y.upd rd.uid (connUpd (reqOf cfg m rd.h (afterBuf cfg a rd).buf) nm
+                (connId (reqOf cfg m rd.h (afterBuf cfg a rd).buf) evs))) rd.uid true evs) none evs) evs) evs)) := by
+  have hseg := segment_connect cfg a rd evs m hget hal hb hc hcn
+  obtain ⟨Y, hY, hcases⟩ := checkConnect_cases cfg (afterBuf cfg a rd) rd.uid m rd.h evs
+  refine ⟨Y, hY, ?_⟩
+  rcases hcases with ⟨he, hnil, _⟩ | ⟨he, hor⟩ | ⟨nm, hnm, hne, he⟩
+  · refine Or.inl ⟨Or.inl hnil, fun _ => ⟨_, ((checkDepartures_ext cfg Y (some rd.uid) evs).mono (by simp)).core, ?_⟩⟩
+    rw [hseg, he]
+  · refine Or.inl ⟨hor, fun hnil => ⟨checkInfos (checkDepartures cfg Y (some rd.uid) evs) evs, ?_, ?_⟩⟩
+    · exact (((checkDepartures_ext cfg Y (some rd.uid) evs).mono (by simp)).trans
+        ((checkInfos_ext _ evs).mono (by simp))).core
+    · rw [hseg, he]
+      simp only [Bool.false_eq_true, if_false]
+      rw [checkAcks_false_ok cfg Y rd.uid evs hnil]
+  · refine Or.inr ⟨nm, hnm, hne, ?_⟩
+    rw [hseg, he]
+    rfl
+
 end Pyrtma.Mgr.Spec
